@@ -302,6 +302,12 @@ func (g *gen) compose(id int, ar []int) {
 			emit(e)
 		}
 	}
+	{
+		// the typed-nil error at a seeded position
+		e := make([]int, n)
+		e[g.r.Intn(n)] = 3
+		emit(e)
+	}
 	g.meta.Count(fmt.Sprintf("compose/stages=%d", n))
 	for _, c := range sl[n] {
 		g.meta.Count("compose/final-kind=" + kindName(c))
@@ -375,7 +381,7 @@ func (g *gen) fmap(id, arity int) {
 		fmt.Fprintf(&g.drv, "\t\t\tres = \"(tuple \" + ints(%s) + \" \" + ints(%s) + \")\"\n\t\t}\n", obsList("r", outs), obsList("s", outs))
 	}
 	fmt.Fprintf(&g.drv, "\t\tet = tagOf(err)\n\t\treturn\n\t}\n}\n")
-	for _, ge := range []int{0, 1, 2} {
+	for _, ge := range []int{0, 1, 2, 3} {
 		fmt.Fprintf(&g.cases, "fmap %d %d %d\n", id, ge, 1+g.r.Intn(90))
 		g.ncase++
 	}
@@ -404,8 +410,8 @@ func (g *gen) bind(id int) {
 	fmt.Fprintf(&g.drv, "\t\tg := func() (%s, error) {\n\t\t\tlog = append(log, []int{0})\n\t\t\treturn enc_%s(gval), sentinel(gerr)\n\t\t}\n", a.typ, a.name)
 	fmt.Fprintf(&g.drv, "\t\tf := %s\n", stageFunc(1, true, []carrier{a}, []carrier{c}, "sentinel(ferr)", "error"))
 	fmt.Fprintf(&g.drv, "\t\tr0, err := %s(f, g)\n\t\tres = %s\n\t\tet = tagOf(err)\n\t\treturn\n\t}\n}\n", fn, obsList("r", []carrier{c}))
-	for _, ge := range []int{0, 1, 2} {
-		for _, fe := range []int{0, 1, 2} {
+	for _, ge := range []int{0, 1, 2, 3} {
+		for _, fe := range []int{0, 1, 2, 3} {
 			if ge != 0 && fe == ge {
 				continue
 			}
@@ -448,8 +454,8 @@ func (g *gen) join(id, n int) {
 	rets = append(rets, "sentinel(ferr)")
 	fmt.Fprintf(&g.drv, "\t\t\treturn %s\n\t\t}\n", strings.Join(rets, ", "))
 	fmt.Fprintf(&g.drv, "\t\t%s := %s(f, sentinel(e))\n\t\tres = %s\n\t\tet = tagOf(err)\n\t\treturn\n\t}\n}\n", lhs(names("r", n), "err"), fn, obsList("r", outs))
-	for _, e := range []int{0, 1, 2} {
-		for _, fe := range []int{0, 1, 2} {
+	for _, e := range []int{0, 1, 2, 3} {
+		for _, fe := range []int{0, 1, 2, 3} {
 			for conv := 0; conv <= 1; conv++ {
 				if conv == 1 && (fe == 0 || n == 0) {
 					continue
@@ -512,6 +518,9 @@ func (g *gen) traverse(id int, maxLen int) {
 				emit(ids, false, [][2]int{{ids[k], t}, {ids[n-1], 3 - t}})
 			}
 		}
+		if n >= 1 {
+			emit(ids, false, [][2]int{{ids[n/2], 3}})
+		}
 		if n >= 3 {
 			// a repeated element that fails: the first occurrence stops the loop
 			d := append([]int{}, ids...)
@@ -540,7 +549,7 @@ func (g *gen) toerror(id, np, nout int) {
 	fmt.Fprintf(&g.drv, "\t\t%s := %s(sentinel(etag), f)(%s)\n\t\tres = %s\n\t\tet = tagOf(err)\n\t\treturn\n\t}\n}\n",
 		lhs(names("r", nout), "err"), fn, encArgs(ins), obsList("r", outs))
 	for _, sc := range []int{1, 0} {
-		for _, t := range []int{1, 2, 0} {
+		for _, t := range []int{1, 2, 3, 0} {
 			fmt.Fprintf(&g.cases, "toerror %d %s %d %d\n", id, csv(g.randArgs(np)), sc, t)
 			g.ncase++
 		}
@@ -604,13 +613,13 @@ func Run(cfg hx.Config) (*hx.Meta, error) {
 	// all chains of 2..3 (thorough: 4) stages with 0..3 parameters / intermediate / final results
 	maxStages, reps := 3, 1
 	if thorough {
-		maxStages, reps = 4, 2
+		maxStages, reps = 4, 3
 	}
 	for n := 2; n <= maxStages; n++ {
 		vs := arityVectors(n+1, 3)
 		rr := reps
 		if n == 4 {
-			rr = 1
+			rr = 2
 		}
 		for rep := 0; rep < rr; rep++ {
 			for _, ar := range vs {
@@ -626,6 +635,16 @@ func Run(cfg hx.Config) (*hx.Meta, error) {
 		for _, ar := range vs[:48] {
 			g.compose(id, ar)
 			id++
+		}
+	} else {
+		// beyond the quantifier (the theorem is for every length): a sample of five- and six-stage chains
+		for _, n := range []int{5, 6} {
+			vs := arityVectors(n+1, 3)
+			hx.Shuffle(g.r, vs)
+			for _, ar := range vs[:128] {
+				g.compose(id, ar)
+				id++
+			}
 		}
 	}
 	ncomp := id
@@ -939,12 +958,21 @@ import (
 var errA = errors.New("boom")
 var errB = errors.New("boom")
 
+// a non-nil error value holding a nil pointer: err != nil is true for it
+type perr struct{}
+
+func (*perr) Error() string { return "boom" }
+
+var errC error = (*perr)(nil)
+
 func sentinel(t int) error {
 	switch t {
 	case 1:
 		return errA
 	case 2:
 		return errB
+	case 3:
+		return errC
 	}
 	return nil
 }
@@ -957,6 +985,8 @@ func tagOf(err error) int {
 		return 1
 	case err == errB:
 		return 2
+	case err == errC:
+		return 3
 	}
 	return 9
 }
